@@ -55,6 +55,9 @@ def stories():
         {"id": "singleton-faults-then-restart", "singleton": True, "keys": 3, "memWindow": 2, "chunkRecords": 5, "gens": [
             {"upstream": ["resetAfter1", "noAck", "closeNow", "healthy"], "clients": [c(40, 5, 35), c(25, 4, 35, 10)], "stopAfterMs": 30}, fin]},
         {"id": "singleton-datadog", "singleton": True, "datadog": True, "keys": 2, "memWindow": 0, "gens": [{"upstream": ["resetAfter1", "noAck", "healthy"], "clients": [c(30, 5, 35)], "stopAfterMs": 30}, fin]},
+        # shared-key login on every upstream connection; some servers hold another key
+        {"id": "shared-key-wrong-then-right", "secret": True, "keys": 2, "memWindow": 0, "gens": [
+            {"upstream": ["badKey", "badKey", "resetAfter1", "badKey", "noAck", "healthy"], "clients": [c(30, 5, 35), c(12, 4, 35)], "stopAfterMs": 30}, fin]},
         {"id": "stop-mid-retry", "keys": 2, "memWindow": 0, "gens": [{"upstream": ["closeNow"] * 30, "clients": [c(20, 5, 35)], "stopAfterMs": 0}, {"upstream": ["noAck"], "clients": [c(20, 5, 35)], "stopAfterMs": 0}, fin]},
     ]
 
@@ -84,6 +87,10 @@ def random_script(sid, rnd, reload_kinds=()):
         sc["maxDurationMs"] = 60000
     if not reload_kinds and rnd.random() < 0.12:
         sc["singleton"] = True
+    if rnd.random() < 0.15:
+        sc["secret"] = True
+        for g in gens:
+            g["upstream"] = [b if rnd.random() > 0.15 else "badKey" for b in g["upstream"]]
     if not reload_kinds and rnd.random() < 0.15:
         sc["datadog"] = True
     elif not reload_kinds and rnd.random() < 0.2:
